@@ -2,7 +2,7 @@ SPEC = {
     "id": "C01",
     "harness": "c01",
     "n": {"quick": 800, "thorough": 20000},
-    "harness_args": lambda tier: (["-confirm-ms", "20000", "-shrink-calls", "60"] if tier == "quick"
+    "harness_args": lambda tier: (["-confirm-ms", "20000", "-shrink-calls", "60", "-shrink-wall-ms", "15000"] if tier == "quick"
                                   else ["-confirm-ms", "120000", "-shrink-calls", "300", "-max-shrunk", "1000"]),
     "harness_timeout": 20000,
     "shard": 250,
